@@ -57,6 +57,8 @@ Definition ispec_holds (o : iobs) : N :=
     | _, _ => 1
     end
   else
+  (* an item that was built encodes: a value the type cannot carry has to be refused when the item is built (30) *)
+  match i_enc o with None => 30 | Some _ =>
   match denote (i_val o) with
   | None => 1
   | Some i =>
@@ -82,7 +84,7 @@ Definition ispec_holds (o : iobs) : N :=
         if negb (list_eqb N.eqb re (e5_encode i)) then 31 else 0
       end
     end
-  end.
+  end end.
 
 Definition run_icases (cs : list iobs) : list (N * N * N) * N * N :=
   let fix go (i : N) (cs : list iobs) (bad : list (N * N * N)) (skipped checked : N) :=
